@@ -199,8 +199,12 @@ def m_aliquot(ctx, pre, act, obs, post):
 # ---- C03 (state sanity) ------------------------------------------------------------------------------------------
 def sane_container(pp, c):
     for s, a in c.contents.items():
-        if not (a >= -1e-9) or a != a:
+        if a != a or a in (float('inf'), float('-inf')):
+            return f"negative or non-finite amount {a!r} of {s.name}"
+        if not (a >= -1e-9):
             return f"negative amount {a!r} of {s.name}"
+    if c.volume != c.volume or c.volume in (float('inf'), float('-inf')):
+        return f"negative or non-finite volume {c.volume!r}"
     if not (c.volume >= -1e-9):
         return f"negative volume {c.volume!r}"
     if c.volume > c.max_volume * (1 + 1e-12) + 1e-9:
@@ -245,6 +249,9 @@ def m_feasible(ctx, pre, act, obs, post):
     pp = ctx['pp']
     if obs['ok']:
         return
+    for _, c in all_units(pre):
+        if any(a != a or a in (float('inf'), float('-inf')) for a in c.contents.values()):
+            return          # garbage in: the transition that produced the impossible state was reported by the sanity monitor
     exc = obs['exc']
     oc = type(exc).__name__
     if not isinstance(exc, (ValueError, TypeError, RuntimeError)):
@@ -313,6 +320,75 @@ def m_feasible(ctx, pre, act, obs, post):
                   f"{e1.act_str(act)} raised {oc}: {exc}, although {why}", ctx['case'], 'returns', oc)]
 
 
+def m_infeasible(ctx, pre, act, obs, post):
+    """The mirror of m_feasible: a transfer that clearly over-draws a source well or clearly over-fills a destination well, and a
+    fill_to whose target is clearly below what an addressed vessel holds or clearly beyond its capacity, must not return."""
+    pp = ctx['pp']
+    if not obs['ok']:
+        return
+    for _, c in all_units(pre):
+        if sane_container(pp, c):
+            return
+    margin = F(1, 10 ** 6)
+    why = None
+    if act['op'] == 'transfer':
+        try:
+            q, unit = ref.parse_quantity(act['q'])
+        except ValueError:
+            return
+        if unit not in ('L', 'g', 'mol', 'U') or q <= 0:
+            return
+        sreg, sshape = e1.region(pre, act['src'])
+        dreg, dshape = e1.region(pre, act['dst'])
+        if sreg is None or dreg is None or (set(sreg) & set(dreg)):
+            return
+        pairs = pairs_of(sreg, sshape, dreg, dshape)
+        if pairs is None:
+            return
+        n_out, into = {}, {}
+        for a, b in pairs:
+            n_out[a] = n_out.get(a, 0) + 1
+        for a, m in n_out.items():
+            M = ref.measure(pp, e1.well_of(pre, a).contents, unit)
+            if m * q > M * (1 + margin) + F(1, 10 ** 15):
+                why = f"source {a} holds {float(M)!r} {unit}, {m} x {float(q)!r} are drawn from it"
+                break
+        if why is None:
+            for a, b in pairs:
+                c = e1.well_of(pre, a)
+                into[b] = into.get(b, F(0)) + q / ref.measure(pp, c.contents, unit) * ref.volume_stored(pp, c.contents)
+            for b, v in into.items():
+                d = e1.well_of(pre, b)
+                if d.max_volume != float('inf') and ref.volume_stored(pp, d.contents) + v > F(d.max_volume) * (1 + margin):
+                    why = f"destination {b} would hold {float(ref.volume_stored(pp, d.contents) + v)!r} of {d.max_volume!r} (storage units)"
+                    break
+    elif act['op'] == 'fill_to':
+        try:
+            t, unit = ref.parse_quantity(act['q'])
+        except ValueError:
+            return
+        reg, _ = e1.region(pre, act['obj'])
+        if reg is None or unit not in ('L', 'g', 'mol', 'U'):
+            return
+        rs = ref.rsub(ctx['subs'][act['solvent']])
+        per = ref.per_base(rs, unit)
+        for a in reg:
+            c = e1.well_of(pre, a)
+            cur = ref.measure(pp, c.contents, unit)
+            if t < cur * (1 - margin) - F(1, 10 ** 12):
+                why = f"{a} already holds {float(cur)!r} {unit}, the target is {float(t)!r}"
+                break
+            if per and c.max_volume != float('inf'):
+                add_v = (t - cur) / per * ref.per_base(rs, 'L') / ref.storage_prefix(pp, 'L')
+                if ref.volume_stored(pp, c.contents) + add_v > F(c.max_volume) * (1 + margin):
+                    why = f"{a} would hold more than its capacity {c.max_volume!r}"
+                    break
+    if why:
+        return [V(f"{_site_any(pre, act)} | accepted-infeasible | op={act['op']},unit={qbase(act.get('q', ''))},"
+                  f"form={form_of(pre, act.get('dst') or act.get('obj'))}",
+                  f"{e1.act_str(act)} returned although {why}", ctx['case'], 'ValueError', 'returned')]
+
+
 # ---- C04 (immutability) -------------------------------------------------------------------------------------------
 def m_immutable(ctx, pre, act, obs, post):
     """Arguments are observably unchanged after the call, whether it returned or raised; results are new objects."""
@@ -326,6 +402,11 @@ def m_immutable(ctx, pre, act, obs, post):
         changed = [n for n, a, b in zip(sorted(pre), before, after) if a != b]
         vs.append(V(f"{_site_any(pre, act)} | argument-mutated | op={act['op']},outcome={outcome}",
                     f"{e1.act_str(act)} {outcome} and modified {changed} in place", ctx['case']))
+    if ctx.get('subs_exact') is not None and e1.exact_subs(ctx['subs']) != ctx['subs_exact']:
+        changed = [a[0] for a, b in zip(ctx['subs_exact'], e1.exact_subs(ctx['subs'])) if a != b]
+        vs.append(V(f"{_site_any(pre, act)} | argument-mutated | substance,op={act['op']},outcome={outcome}",
+                    f"{e1.act_str(act)} {outcome} and wrote to the Substance object(s) {changed} (attributes or hash changed: a "
+                    f"Substance is a dictionary key in every container that holds it)", ctx['case']))
     if obs.get('lists_changed'):
         vs.append(V(f"{_site_any(pre, act)} | argument-mutated | list-argument,op={act['op']},outcome={outcome}",
                     f"{e1.act_str(act)} {outcome} and changed a list that was handed to it (it was "
